@@ -68,7 +68,7 @@ if [ "$(cat "$OUT/.libkey" 2>/dev/null || true)" != "$KEY" ]; then
   rm -f "$OUT/libhtp_v.a" "$OUT/libhtp_v.so"
   if [ "$FLAV" = shared ]; then
     $CC -shared -o "$OUT/libhtp_v.so" "$OUT"/obj/*.o -lz -Wl,-z,relro,-z,now \
-      -Wl,--wrap=malloc,--wrap=calloc,--wrap=realloc,--wrap=free,--wrap=strdup,--wrap=gettimeofday,--wrap=inflateInit2_
+      -Wl,--wrap=malloc,--wrap=calloc,--wrap=realloc,--wrap=free,--wrap=strdup,--wrap=gettimeofday,--wrap=inflateInit2_,--wrap=inflateEnd
   else
     ar rcs "$OUT/libhtp_v.a" "$OUT"/obj/*.o
   fi
@@ -80,7 +80,7 @@ fi
 ENGINES="vrun enum_c13 enum_c15 enum_c12 enum_c17 mpartmc cutmc statemc faultmc pump ilv enum_c11 decompmc"
 HXSRC=$(ls "$HERE"/*.c "$HERE"/*.h)
 HKEY=$( (echo "$KEY $CC $CFL"; cat $HXSRC) | sha1sum | cut -c1-16)
-WRAP="-Wl,--wrap=malloc,--wrap=calloc,--wrap=realloc,--wrap=free,--wrap=strdup,--wrap=gettimeofday,--wrap=inflateInit2_"
+WRAP="-Wl,--wrap=malloc,--wrap=calloc,--wrap=realloc,--wrap=free,--wrap=strdup,--wrap=gettimeofday,--wrap=inflateInit2_,--wrap=inflateEnd"
 if [ "$FLAV" = tsan ]; then
   # free-running race pass: self-contained harness, no allocator wrappers, everything instrumented
   if [ "$(cat "$OUT/.hxkey" 2>/dev/null || true)" != "$HKEY" ]; then
